@@ -1,7 +1,11 @@
 /- Line-protocol driver of the `feeflow` engine (C07, C09, C10): parses the op lines (including the `@k=v`
    answers recorded from the real run and the trailing stray-coin tokens `+<asset>:<amount>` / `+j:<amount>`)
    and prints the joint model's observation. Import-free.  Init tokens it does not know (`dn=<denom shapes>`:
-   the model does not look at names) are ignored. -/
+   the model does not look at names; `pliq=` / `vliq=`: reserves are not modelled) are ignored; a trailing `h` on a
+   `pools=` / `vaults=` entry (the hostile contract) is dropped.  `@xfail=err|panic` wraps the op into `Op.xfail`.
+   `reenter <h> <t> <sender> <p<k>|v<k>|s<k>> <plain|catch> <inner op> [args] -- <outer op> [args] [+coins]` builds
+   `Op.reenter` (the nested op is sent by bonder `u5` and reads its recorded answers from the `@i…` tokens, the outer
+   op's per-swap accruals from `@hacc`); its observation line ends in `fired=<0|1|2|->` as computed by `stepH`. -/
 import Driver.Util
 import WW.Model.Feeflow
 namespace Driver
@@ -92,10 +96,12 @@ def init (ws : List String) : Option FeeflowState :=
   let m := kvs ws
   match lookupNat m "grace", lookupNat m "genesis", lookupNat m "dur", lookupNat m "dist", lookupNat m "nusers" with
   | some grace, some genesis, some dur, some dist, some nusers =>
-    let pools := (listOf (lookupStr m "pools")).mapM fun t => match splitNats "." t with
+    -- a trailing `h` marks a pair / vault whose contract is the hostile one: the model does not care
+    let unh := fun (t : String) => if t.endsWith "h" then (t.dropEnd 1).toString else t
+    let pools := (listOf (lookupStr m "pools")).mapM fun t => match splitNats "." (unh t) with
       | some [a, b] => some ({ a := a, b := b, reg := true, on := true, pa := 0, pb := 0 } : Collector.Pool)
       | _ => none
-    let vaults := (listOf (lookupStr m "vaults")).mapM fun t => t.toNat?.map fun a => ({ asset := a, pend := 0 } : Collector.Vault)
+    let vaults := (listOf (lookupStr m "vaults")).mapM fun t => (unh t).toNat?.map fun a => ({ asset := a, pend := 0 } : Collector.Vault)
     match pools, vaults with
     | some pools, some vaults =>
       let nassets := (vaults.foldl (fun acc v => max acc v.asset) (pools.foldl (fun acc p => max acc (max p.a p.b)) dist)) + 1
@@ -239,6 +245,17 @@ def parseOp (cfg : Feeflow.Cfg) (now sender : Nat) (op : String) (args : List St
 /-- the recorded answers must cover exactly what the model asks of them -/
 def recordedCovers (cfg : Feeflow.Cfg) (s : Feeflow.St) (op : Feeflow.Op) (rcd : List (String × String)) : Bool :=
   match op with
+  | .xfail _ _ => true          -- the real transaction failed: there is nothing recorded to cover
+  | .reenter trig caught hacc inner outer =>
+    -- the outer operation's swaps (as the hooked pipeline executes them) must be the recorded ones
+    match Feeflow.stepH cfg { trig := trig, caught := caught, clears := Feeflow.hasNewEpoch inner,
+                              run := fun s1 => Feeflow.step cfg s1 inner, hacc := hacc } s outer,
+          parseKeyed (lookupStr rcd "@outs" "-") with
+    | some (.ok h), some outs =>
+      h.sws.length == outs.length && h.sws.all fun sw => (lookup2 outs sw.1 sw.2.1).isSome
+    | some (.ok _), none => false
+    | none, _ => recordedCovers cfg s outer rcd
+    | _, _ => true
   | .coins payer a x op' =>
     -- the operation runs on the state after the bank's transfer
     match Feeflow.pay cfg s payer a x (Feeflow.target op') with
@@ -286,19 +303,97 @@ def withCoins (cfg : Feeflow.Cfg) (sender : Nat) (opName : String) (mop : Feeflo
         | _ => mop
       some (cs.foldr (fun c op => Feeflow.Op.coins sender c.1 c.2 op) mop)
 
+/-- `@xfail=err|panic` → wrap into `Op.xfail` -/
+def withXfail (rcd : List (String × String)) (key : String) (mop : Feeflow.Op) : Option Feeflow.Op :=
+  let v := lookupStr rcd key "-"
+  if v == "-" then some mop
+  else if v == "err" then some (.xfail 1 mop)
+  else if v == "panic" then some (.xfail 2 mop)
+  else none
+
+/-- the plain part of an op line: `<args…> [+coins…]` with the recorded answers `rcd` -/
+def parsePlain (cfg : Feeflow.Cfg) (now sender : Nat) (op : String) (args0 : List String) (rcd : List (String × String)) :
+    Option Feeflow.Op :=
+  let args := args0.filter fun w => !w.startsWith "+"
+  let coinToks := args0.filter fun w => w.startsWith "+"
+  (parseOp cfg now sender op args rcd).bind fun mop =>
+    (withXfail rcd "@xfail" mop).bind fun mop =>
+      (coinToks.mapM (stray? cfg)).bind fun cs =>
+        -- the coin tokens are trailing tokens
+        if args0.drop args.length == coinToks then withCoins cfg sender op mop cs else none
+
+/-- the address the hostile contract's nested message is sent from (its helper contract): bonder `u5` -/
+def AGENT : Nat := 5
+
+def trig? (t : String) : Option Feeflow.Trig :=
+  let k := (t.drop 1).toString.toNat?
+  if t.startsWith "p" then k.map .poolCollect
+  else if t.startsWith "v" then k.map .vaultCollect
+  else if t.startsWith "s" then k.map .poolSwap
+  else none
+
+/-- the recorded answers of the nested op: `@i<k>=v` → `@<k>=v` -/
+def innerRcd (rcd : List (String × String)) : List (String × String) :=
+  rcd.filterMap fun (kv : String × String) =>
+    if kv.1.startsWith "@i" then some ("@" ++ (kv.1.drop 2).toString, kv.2) else none
+
+/-- `@hacc=<stage>.<asset>.<pair>.<side>.<pre>:<amount>,…`: protocol fee accrued per swap of the outer op -/
+def parseHacc (s : String) : Option (List ((Nat × Nat × Nat) × (Nat × Nat × Nat))) :=
+  (listOf s).mapM fun t => match t.splitOn ":" with
+    | [k, v] => match splitNats "." k, v.toNat? with
+      | some [st, a, pool, side, pre], some x => some ((pre, st, a), (pool, side, x))
+      | _, _ => none
+    | _ => none
+
+/-- `reenter <h> <t> <sender> <trig> <plain|catch> <inner op> <args…> -- <outer op> <args…> [+coins]` -/
+def parseReenter (cfg : Feeflow.Cfg) (now sender : Nat) (args0 : List String) (rcd : List (String × String)) :
+    Option Feeflow.Op :=
+  match args0 with
+  | t :: mode :: rest =>
+    let innerToks := rest.takeWhile (· != "--")
+    let outerToks := (rest.dropWhile (· != "--")).drop 1
+    match trig? t, (if mode == "plain" then some false else if mode == "catch" then some true else none),
+          innerToks, outerToks with
+    | some trig, some caught, iop :: iargs, oop :: oargs =>
+      -- the nested op carries no coins and is no `reenter` itself
+      if iop == "reenter" || oop == "reenter" || iargs.any (·.startsWith "+") then none
+      else
+        match (parseOp cfg now AGENT iop iargs (innerRcd rcd)).bind (withXfail (innerRcd rcd) "@xfail"),
+              parsePlain cfg now sender oop oargs rcd, parseHacc (lookupStr rcd "@hacc" "-") with
+        | some inner, some outer, some ha =>
+          some (.reenter trig caught
+            (fun pre st a => (ha.filter fun e => e.1.1 == pre && e.1.2.1 == st && e.1.2.2 == a).map (·.2)) inner outer)
+        | _, _, _ => none
+    | _, _, _, _ => none
+  | _ => none
+
 def opLine (fs : FeeflowState) (ws : List String) : FeeflowState × String :=
   match ws with
   | op :: _h :: t :: sender :: rest =>
     let args0 := rest.filter fun w => !w.startsWith "@"
-    let args := args0.filter fun w => !w.startsWith "+"
-    let coinToks := args0.filter fun w => w.startsWith "+"
     let rcd := kvs (rest.filter fun w => w.startsWith "@")
     match t.toNat?, addr? sender with
     | some now, some sender =>
-      match (parseOp fs.cfg now sender op args rcd).bind fun mop =>
-          (coinToks.mapM (stray? fs.cfg)).bind fun cs =>
-            -- the coin tokens are trailing tokens
-            if args0.drop args.length == coinToks then withCoins fs.cfg sender op mop cs else none with
+      if op == "reenter" then
+        match parseReenter fs.cfg now sender args0 rcd with
+        | some (.reenter trig caught hacc inner outer) =>
+          let mop := Feeflow.Op.reenter trig caught hacc inner outer
+          if !recordedCovers fs.cfg fs.st mop rcd then (fs, "bad-op")
+          else
+            -- the hooked run also says whether the hostile contract was triggered and what became of its message
+            let fired : String :=
+              match Feeflow.stepH fs.cfg { trig := trig, caught := caught, clears := Feeflow.hasNewEpoch inner,
+                                           run := fun s1 => Feeflow.step fs.cfg s1 inner, hacc := hacc } fs.st outer with
+              | some (.ok h) => toString h.fired
+              | none => "0"
+              | _ => "-"
+            match Feeflow.step fs.cfg fs.st mop with
+            | .ok s' => ({ fs with st := s' }, "ok " ++ observe fs.cfg s' ++ " fired=" ++ fired)
+            | .err => (fs, "err " ++ observe fs.cfg fs.st ++ " fired=-")
+            | .panic => (fs, "panic " ++ observe fs.cfg fs.st ++ " fired=-")
+        | _ => (fs, "bad-op")
+      else
+      match parsePlain fs.cfg now sender op args0 rcd with
       | some mop =>
         if !recordedCovers fs.cfg fs.st mop rcd then (fs, "bad-op")
         else
